@@ -148,6 +148,17 @@ pub fn fill(seed: u32, len: usize) -> Vec<u8> {
                 out[15] = (len - 16) as u8;
             }
         }
+        SEED_LEN24 => {
+            // the value begins with a big-endian 24-bit count: the number of bytes in the value plus one (a length prefix of
+            // the sender's own that reaches one byte past the value)
+            out.iter_mut().for_each(|b| *b = 0x55);
+            if len >= 3 {
+                let n = len + 1;
+                out[0] = (n >> 16) as u8;
+                out[1] = (n >> 8) as u8;
+                out[2] = n as u8;
+            }
+        }
         SEED_FQDN => {
             // an absolute host name: labels of letters, digits and hyphens joined by dots, ending in the root dot
             let pat: &[u8] = b"proxy.example-1.com.eu.";
@@ -201,14 +212,17 @@ pub const SEED_COUNTED: u32 = 0xffff_fff9;
 pub const SEED_FQDN: u32 = 0xffff_fff7;
 /// a complete v2 header whose length field matches the size of the byte string
 pub const SEED_V2HEADER: u32 = 0xffff_fff5;
+/// a 24-bit big-endian count (own length + 1) in front of constant filler
+pub const SEED_LEN24: u32 = 0xffff_fff3;
 
 /// A fill seed from the tape: mostly random content, but one value in four is one of the content classes
 /// (all zero / all 0xFF / ASCII letters / signature bytes) that pure random bytes never produce.
 pub fn gen_seed(t: &mut Tape) -> u32 {
-    match t.weighted(&[24, 4, 2, 2, 2, 1, 1, 1, 1, 1, 1]) {
+    match t.weighted(&[24, 4, 2, 2, 2, 1, 1, 1, 1, 1, 1, 1]) {
         8 => SEED_COUNTED,
         9 => SEED_FQDN,
         10 => SEED_V2HEADER,
+        11 => SEED_LEN24,
         0 => t.u32() | 1,
         1 => 0,
         2 => SEED_ONES,
